@@ -256,7 +256,7 @@ Proof.
     apply (delivers_union fl e _ uj ql qr _ _ u (sem_concat idc an bn A B) DA DB Nuj NUj).
     + intros c Hc. apply Iu1j, Iuu1, Hc.
     + intros c Hc. specialize (Iu c Hc). rewrite ECp in Iu. unfold sem_concat. destruct idc; cbn [cols]; rewrite ECA; [exact Iu|rewrite app_nil_r in Iu; exact Iu].
-    + intros K IK. apply (sel_concat fl idc an bn A B K).
+    + intros K IK. apply (sel_concat idc an bn A B K).
       * rewrite ECA. exact Na.
       * exact (sem_rows_width fl a e A EA).
       * exact (sem_rows_width fl b e B EB).
